@@ -68,7 +68,7 @@ def matrix(tier, focus="general"):
     runs = []
     if tier == "quick":
         for p in PLANS:
-            runs.append(Run(p, programs=6, ops=140))
+            runs.append(Run(p, programs=6, ops=140, mutators=3, extra=["--bind"]))
             runs.append(Run(p, feats=["vo_bit"], name="small", heap=8, workers=4, programs=5,
                             ops=180, seed_off=1))
     else:
@@ -141,25 +141,31 @@ def grid_matrix(tier):
 
 
 def cycle_matrix(tier):
-    """C09: allocate / drop / collect cycles."""
+    """C09: allocate / (collect while live) / drop / collect cycles."""
     runs = []
     for p in PLANS:
         if p == "NoGC":
             continue
+        # Compressor: a collection with more than one region (1 MB) of live data is a recorded
+        # defect (KNOWN_FINDINGS.json); ordinary Compressor cycles collect garbage only.
+        x = ["--nomidgc"] if p == "Compressor" else []
         if tier == "quick":
             runs.append(Run(p, name="cycles", heap=16, sems="0,0,0,2,6",
-                            extra=["--mode", "cycles", "--cycles", "16"]))
+                            extra=["--mode", "cycles", "--cycles", "24"] + x))
         else:
             runs.append(Run(p, name="cycles", heap=16, sems="0,0,0,2,6",
-                            extra=["--mode", "cycles", "--cycles", "300"]))
+                            extra=["--mode", "cycles", "--cycles", "320"] + x))
             runs.append(Run(p, name="cycles-big", heap=64, sems="0,0,2", workers=8, seed_off=1,
-                            extra=["--mode", "cycles", "--cycles", "80"]))
+                            extra=["--mode", "cycles", "--cycles", "80"] + x))
             runs.append(Run(p, name="cycles-rel", heap=24, sems="0,0,0,2,6", release=True, seed_off=2,
-                            extra=["--mode", "cycles", "--cycles", "400"]))
+                            extra=["--mode", "cycles", "--cycles", "400"] + x))
             runs.append(Run(p, feats=["immortal_as_nonmoving"], name="cycles-nmimm", heap=16,
-                            sems="0,0,2", seed_off=3, extra=["--mode", "cycles", "--cycles", "100"]))
+                            sems="0,0,2", seed_off=3, extra=["--mode", "cycles", "--cycles", "100"] + x))
             runs.append(Run(p, feats=["immix_smaller_block"], name="cycles-sb", heap=16,
-                            sems="0,0,2", seed_off=4, extra=["--mode", "cycles", "--cycles", "100"]))
+                            sems="0,0,2", seed_off=4, extra=["--mode", "cycles", "--cycles", "100"] + x))
+    runs.append(Run("Compressor", name="cycles-liveregions-probe", heap=16, sems="0,0,2", workers=1,
+                    extra=["--mode", "cycles", "--cycles", "10"],
+                    known_key="Compressor:live-data-spanning-regions"))
     return runs
 
 
